@@ -248,6 +248,21 @@ def ray_triangle_id(
         line_directions=line_directions,
     )
 
+    # a triangle with no area (collinear or coincident vertices) cannot be
+    # crossed through its interior: whether its cross product rounds to zero
+    # depends on the size of the mesh, so test it relative to the edge lengths
+    # instead of relying on a zero normal
+    edges = triangle_candidates[:, 1:] - triangle_candidates[:, :1]
+    cross = np.cross(edges[:, 0], edges[:, 1])
+    lengths = util.diagonal_dot(edges[:, 0], edges[:, 0]) * util.diagonal_dot(
+        edges[:, 1], edges[:, 1]
+    )
+    has_area = util.diagonal_dot(cross, cross) > 16 * np.finfo(np.float64).eps * lengths
+    if not has_area.all():
+        keep = has_area[valid]
+        location = location[keep]
+        valid = np.logical_and(valid, has_area)
+
     if len(triangle_candidates) == 0 or not valid.any():
         # we got no hits so return early with empty array
         return (
